@@ -277,8 +277,8 @@ type hook struct {
 	exists      bool
 	active      bool
 	count       int
-	auths       []auth // acceptable configurations (more than one only after re-registering an inactive URL with other credentials: the statement does not say which one wins)
-	attempted   bool   // a delivery was attempted since the (re-)registration
+	auths       []auth    // acceptable configurations (more than one only after re-registering an inactive URL with other credentials: the statement does not say which one wins)
+	attempted   bool      // a delivery was attempted since the (re-)registration
 	attFrom     time.Time // the last attempt happened between these two readings of the clock
 	attTo       time.Time
 	lastOutcome string
